@@ -48,7 +48,9 @@ def gen_set(r):
         kinds = sorted(r.sample(KINDS, r.randrange(1, 4)))
         sp = {"name": "Cp%d" % i, "kinds": kinds, "order": r.choice((0, 0, 1, 5, -3, None, "raise")),
               "active": r.choice((True, True, True, True, False, "raise")), "ctor_raise": r.random() < 0.08,
-              "import_ok": r.random() > 0.08}
+              # what goes wrong at import: nothing / the module is missing / the module imports but has no such class /
+              # the name is not a dotted path at all
+              "import_ok": r.choice((True,) * 11 + ("no-module", "no-class", "no-dot"))}
         if sp["active"] is True and r.random() < 0.3:
             # switched off (or explicitly on) through the PLUGIN_<NAME> setting, in any of the forms a user may write
             sp["switch"] = r.choice(("false", "False", "no", "0", False, 0, "", "true", "True", "yes"))
@@ -86,7 +88,7 @@ def _expected_order(specs, python_plugin):
     if python_plugin:
         items.append(("PythonPlugin", 0))
     for sp in specs:
-        if not sp["import_ok"] or sp["ctor_raise"] or sp["active"] is not True:
+        if sp["import_ok"] is not True or sp["ctor_raise"] or sp["active"] is not True:
             continue
         if "switch" in sp and str(sp["switch"]).lower() not in ("true", "yes", "t", "1", "y"):
             continue        # switched off by configuration
@@ -122,8 +124,10 @@ def execute(s, ch):
             w = world.World(k, cfg=switches, plugins=plugs, python_plugin=s["python_plugin"])
             names = list(w.custom.get("PLUGINS", []))
             for i, sp in enumerate(s["specs"]):
-                if not sp["import_ok"]:
-                    names[i] = "simkit.no_such_module.%s" % sp["name"]
+                if sp["import_ok"] is not True:
+                    names[i] = {"no-module": "simkit.no_such_module.%s", "no-class": "simkit.simplugins.NoSuch%s",
+                                "no-dot": "JustAName%s", False: "simkit.no_such_module.%s"}[sp["import_ok"]] % sp["name"]
+                    k.fault("plugin_unloadable:%s" % (sp["import_ok"] or "no-module"))
                 f = w.sink.faults.setdefault(sp["name"], {})
                 if sp["order"] == "raise":
                     f["order"] = "all"
@@ -184,7 +188,7 @@ def execute(s, ch):
 
         base = one_run(None)
         ctx = "plugins %s python_plugin=%s" % ([(sp["name"], "".join(k_[0] for k_ in sp["kinds"]), sp["order"], sp["active"],
-                                                 "ctor!" if sp["ctor_raise"] else "", "" if sp["import_ok"] else "noimport")
+                                                 "ctor!" if sp["ctor_raise"] else "", "" if sp["import_ok"] is True else str(sp["import_ok"] or "noimport"))
                                                 for sp in s["specs"]], s["python_plugin"])
         if base["start"] != "ok":
             viol.append(V("start-raised:%s" % base["start"].split(":")[0], "%s; %s" % (base["start"], ctx)))
@@ -230,6 +234,10 @@ def execute(s, ch):
             cb_base, cb_res = counts(base["calls"]), counts(res["calls"])
             for (pl, c), n in sorted(cb_base.items()):
                 if pl == victim:
+                    continue
+                if cb == "order" and c == "log_tracepoint":
+                    # the tracepoint logger is THE first logger in plugin order: a plugin whose order() failed is placed
+                    # by the default order and may legitimately become (or stop being) the elected logger
                     continue
                 if cb_res.get((pl, c), 0) < n:
                     viol.append(V("other-plugin-lost-calls:%s-fault-hides-%s" % (where, c),
